@@ -4,5 +4,5 @@ set -eu
 cd "$(dirname "$0")"
 export CARGO_NET_OFFLINE=true
 mkdir -p target evidence replays
-python3 tools/gen_shadow.py /repo "$(pwd)/shadow"
+python3 tools/gen_shadow.py "${VERIF_REPO:-/repo}" "$(pwd)/shadow"
 cargo build --offline -p verif-harness 2>&1 | tail -3
